@@ -345,14 +345,27 @@ impl<const H: usize> Writer<H> {
         // Move the file cursor back as well, so the next append lands at the new write offset
         self.writer.seek(SeekFrom::Start(offset))?;
 
+        let truncated_len = self.write_offset - offset;
         self.flushed_offset.truncate_to(offset);
         self.write_offset = offset;
         #[cfg(feature = "verif")]
         crate::verif::point("seglog:set_len:lowered", crate::verif::fd_of(self.writer.get_ref()), offset);
 
-        // Write full zero header as clear truncation marker
-        let zero_header = [0u8; RECORD_HEAD_SIZE];
-        self.writer.get_ref().write_all_at(&zero_header, offset)?;
+        // Zero the whole truncated range. Its first bytes are the truncation marker; zeroing
+        // only those would leave the later truncated records intact on disk, and a new record
+        // ending exactly where one of them starts would make them valid again on recovery.
+        let zeros = [0u8; 8 * 1024];
+        let mut zeroed = 0u64;
+        let to_zero = truncated_len
+            .min(self.size as u64 - offset)
+            .max(RECORD_HEAD_SIZE as u64);
+        while zeroed < to_zero {
+            let n = (to_zero - zeroed).min(zeros.len() as u64) as usize;
+            self.writer
+                .get_ref()
+                .write_all_at(&zeros[..n], offset + zeroed)?;
+            zeroed += n as u64;
+        }
         self.writer.get_ref().sync_data()?;
         #[cfg(feature = "verif")]
         crate::verif::point("fsync:marker", crate::verif::fd_of(self.writer.get_ref()), offset);
